@@ -475,7 +475,7 @@ theorem step_k4 (s s' : St) (e : Ev) (h : K4 s) (hs : step s e = some s') : K4 s
         · cases hs
       · cases hs
     · cases hs
-  | quiesce p r =>
+  | quiesce p r l =>
     simp only [step] at hs
     split at hs
     · simp at hs; subst hs; exact h
